@@ -1,545 +1,1081 @@
-// C17 conformance harness, part 1: ==, !=, <, <=, >, >= and hash of the fcppt value types.
-// (command line: see c17_main.cpp)
+// C17 conformance harness: ==, !=, <, <=, >, >= and hash of the fcppt value types.
 //
-// For every listed type it enumerates values with components in {0,1,2} (several of them equal
-// but produced in different ways: after reset / assignment from another alternative / through
-// operators), and logs for each value its observable components (what the type's own accessors
-// return) and the complete n x n result matrices of every comparison operator the type offers
-// (detected with requires-expressions) and of its hash function object.  It contains no expected
-// values: spec/OrderJudge.tla (TLC) evaluates the axioms of spec/Order.tla on the matrices.
-#include <common/vjson.hpp>
+// This file is compiled once per SECTION (-DC17_SECTION_<family>), every section being one harness
+// unit with its own includes (see c17_common.hpp / c17_main.cpp): a family whose headers no longer
+// compile against a changed tree does not take the others down.
+//
+// For every listed type a section enumerates values with components in {0,1,2} - several of them
+// EQUAL BUT BUILT DIFFERENTLY (after reset / assignment from another alternative / through operators
+// / with another capacity / through another owner) and several DIFFERENT BUT SHARING COMPONENTS (same
+// cells in another shape, same payload in another alternative, same owner with another stored
+// pointer, distinct objects holding equal values) - and logs for each value its observable components
+// (what the type's own accessors return) and the complete n x n result matrices of every comparison
+// operator the type offers (detected with requires-expressions) and of its hash function objects.
+// It contains no expected values: spec/OrderJudge.tla (TLC) evaluates the axioms of spec/Order.tla
+// on the matrices.
+#include "c17_common.hpp"
 
-#include <fcppt/make_recursive.hpp>
-#include <fcppt/make_ref.hpp>
-#include <fcppt/make_shared_ptr.hpp>
-#include <fcppt/make_strong_typedef.hpp>
-#include <fcppt/recursive.hpp>
-#include <fcppt/recursive_comparison.hpp>
-#include <fcppt/reference.hpp>
-#include <fcppt/reference_comparison.hpp>
-#include <fcppt/reference_hash.hpp>
-#include <fcppt/reference_std_hash.hpp>
-#include <fcppt/shared_ptr.hpp>
-#include <fcppt/shared_ptr_hash_decl.hpp>
-#include <fcppt/shared_ptr_hash_impl.hpp>
-#include <fcppt/shared_ptr_std_hash.hpp>
-#include <fcppt/strong_typedef.hpp>
-#include <fcppt/strong_typedef_arithmetic.hpp>
-#include <fcppt/strong_typedef_comparison.hpp>
-#include <fcppt/strong_typedef_hash.hpp>
-#include <fcppt/strong_typedef_std_hash.hpp>
-#include <fcppt/array/comparison.hpp>
-#include <fcppt/array/get.hpp>
-#include <fcppt/array/object.hpp>
-#include <fcppt/container/bitfield/comparison.hpp>
-#include <fcppt/container/bitfield/hash.hpp>
-#include <fcppt/container/bitfield/init.hpp>
-#include <fcppt/container/bitfield/object.hpp>
-#include <fcppt/container/bitfield/operators.hpp>
-#include <fcppt/container/bitfield/std_hash.hpp>
-#include <fcppt/container/grid/comparison.hpp>
-#include <fcppt/container/grid/object.hpp>
-#include <fcppt/container/raw_vector/comparison.hpp>
-#include <fcppt/container/raw_vector/object.hpp>
-#include <fcppt/container/tree/comparison.hpp>
-#include <fcppt/container/tree/object.hpp>
-#include <fcppt/either/comparison.hpp>
-#include <fcppt/either/object.hpp>
-#include <fcppt/enum/array.hpp>
-#include <fcppt/enum/array_comparison.hpp>
-#include <fcppt/math/box/comparison.hpp>
-#include <fcppt/math/box/object.hpp>
-#include <fcppt/math/dim/comparison.hpp>
-#include <fcppt/math/dim/static.hpp>
-#include <fcppt/math/dim/std_hash.hpp>
-#include <fcppt/math/matrix/at_r_c.hpp>
-#include <fcppt/math/matrix/comparison.hpp>
-#include <fcppt/math/matrix/row.hpp>
-#include <fcppt/math/matrix/static.hpp>
-#include <fcppt/math/matrix/std_hash.hpp>
-#include <fcppt/math/sphere/comparison.hpp>
-#include <fcppt/math/sphere/object.hpp>
-#include <fcppt/math/vector/comparison.hpp>
-#include <fcppt/math/vector/static.hpp>
-#include <fcppt/math/vector/std_hash.hpp>
+using c17::comp_t;
+using c17::dom;
+using c17::dom2;
+using c17::no_hash;
+
+// ================================================================ optional
+#ifdef C17_SECTION_optional
 #include <fcppt/optional/comparison.hpp>
 #include <fcppt/optional/object.hpp>
-#include <fcppt/range/hash.hpp>
-#include <fcppt/record/comparison.hpp>
-#include <fcppt/record/element.hpp>
-#include <fcppt/record/get.hpp>
-#include <fcppt/record/make_label.hpp>
-#include <fcppt/record/object.hpp>
-#include <fcppt/record/set.hpp>
-#include <fcppt/tuple/comparison.hpp>
-#include <fcppt/tuple/get.hpp>
-#include <fcppt/tuple/object.hpp>
-#include <fcppt/variant/comparison.hpp>
-#include <fcppt/variant/get_unsafe.hpp>
-#include <fcppt/variant/holds_type.hpp>
-#include <fcppt/variant/object.hpp>
-
-#include <concepts>
-#include <cstddef>
-#include <functional>
-#include <string>
-#include <utility>
-#include <vector>
-
 namespace
 {
-using comp_t = std::vector<long long>;
-
-struct no_hash
-{
-};
-
-template <typename M>
-std::string matrix_json(std::size_t const n, M const &cell)
-{
-  std::string s = "[";
-  for (std::size_t a = 0; a < n; ++a)
-  {
-    s += a ? ",[" : "[";
-    for (std::size_t b = 0; b < n; ++b)
-    {
-      if (b) s += ',';
-      s += cell(a, b) ? '1' : '0';
-    }
-    s += ']';
-  }
-  return s + "]";
-}
-
-// values: (how it was produced, the value)
-template <typename T>
-using values = std::vector<std::pair<std::string, T>>;
-
-template <typename T, typename Comp, typename Hash>
-void emit_order(std::string const &type, values<T> const &vals, Comp const &comp, Hash const &hash)
-{
-  std::size_t const n = vals.size();
-  std::vector<std::string> hows;
-  for (auto const &v : vals) hows.push_back(v.first);
-  vj::J pre;
-  pre.kv("f", "order").kv("type", type).kv("n", static_cast<long long>(n)).raw("how", vj::str_arr(hows));
-  vj::begin_call(pre.s);
-  std::string r = ",\"comp\":[";
-  for (std::size_t i = 0; i < n; ++i) r += (i ? "," : "") + vj::arr(comp(vals[i].second));
-  r += "]";
-  std::vector<std::string> has;
-  auto const val = [&vals](std::size_t i) -> T const & { return vals[i].second; };
-  std::string const empty = "[]";
-  if constexpr (requires(T const &a) { { a == a } -> std::convertible_to<bool>; })
-  {
-    has.push_back("EQ");
-    r += ",\"EQ\":" + matrix_json(n, [&](std::size_t a, std::size_t b) { return static_cast<bool>(val(a) == val(b)); });
-  }
-  else r += ",\"EQ\":" + empty;
-  if constexpr (requires(T const &a) { { a != a } -> std::convertible_to<bool>; })
-  {
-    has.push_back("NE");
-    r += ",\"NE\":" + matrix_json(n, [&](std::size_t a, std::size_t b) { return static_cast<bool>(val(a) != val(b)); });
-  }
-  else r += ",\"NE\":" + empty;
-  if constexpr (requires(T const &a) { { a < a } -> std::convertible_to<bool>; })
-  {
-    has.push_back("LT");
-    r += ",\"LT\":" + matrix_json(n, [&](std::size_t a, std::size_t b) { return static_cast<bool>(val(a) < val(b)); });
-  }
-  else r += ",\"LT\":" + empty;
-  if constexpr (requires(T const &a) { { a <= a } -> std::convertible_to<bool>; })
-  {
-    has.push_back("LE");
-    r += ",\"LE\":" + matrix_json(n, [&](std::size_t a, std::size_t b) { return static_cast<bool>(val(a) <= val(b)); });
-  }
-  else r += ",\"LE\":" + empty;
-  if constexpr (requires(T const &a) { { a > a } -> std::convertible_to<bool>; })
-  {
-    has.push_back("GT");
-    r += ",\"GT\":" + matrix_json(n, [&](std::size_t a, std::size_t b) { return static_cast<bool>(val(a) > val(b)); });
-  }
-  else r += ",\"GT\":" + empty;
-  if constexpr (requires(T const &a) { { a >= a } -> std::convertible_to<bool>; })
-  {
-    has.push_back("GE");
-    r += ",\"GE\":" + matrix_json(n, [&](std::size_t a, std::size_t b) { return static_cast<bool>(val(a) >= val(b)); });
-  }
-  else r += ",\"GE\":" + empty;
-  if constexpr (!std::is_same_v<Hash, no_hash>)
-  {
-    has.push_back("HEQ");
-    std::vector<std::size_t> h;
-    for (std::size_t i = 0; i < n; ++i) h.push_back(hash(val(i)));
-    r += ",\"HEQ\":" + matrix_json(n, [&](std::size_t a, std::size_t b) { return h[a] == h[b]; });
-  }
-  else r += ",\"HEQ\":" + empty;
-  r += ",\"has\":" + vj::str_arr(has) + "}";
-  vj::end_call(r);
-}
-
-int const dom[] = {0, 1, 2};
-
-// ---------------------------------------------------------------- the types
 void optional_int()
 {
   using T = fcppt::optional::object<int>;
-  values<T> v;
-  v.emplace_back("default", T());
-  for (int x : dom) v.emplace_back("ctor", T(x));
+  c17::order<T> v("optional", "optional<int>");
+  v.add("default", T());
+  for (int x : dom) v.add("ctor", T(x));
   {
     T o(1);
     o = T();
-    v.emplace_back("reset", o);
+    v.add("reset", o);
   }
   {
     T o;
     o = T(2);
-    v.emplace_back("assigned", o);
+    v.add("assigned", o);
   }
   {
     T o(0);
     o = T(1);
-    v.emplace_back("reassigned", o);
+    v.add("reassigned", o);
   }
   {
     T a(2);
     T b(std::move(a));
     T c;
     c = std::move(b);
-    v.emplace_back("moved_into", c);
+    v.add("moved_into", c);
   }
-  emit_order("optional<int>", v,
-             [](T const &o) { return o.has_value() ? comp_t{1, o.get_unsafe()} : comp_t{0}; }, no_hash{});
+  {
+    T a(0);
+    T const b(a);
+    a = T();
+    v.add("copied_before_reset", b);
+    v.add("reset_after_copy", a);
+  }
+  v.emit([](T const &o) { return o.has_value() ? comp_t{1, o.get_unsafe()} : comp_t{0}; }, no_hash{});
 }
 
 void optional_optional()
 {
   using I = fcppt::optional::object<int>;
   using T = fcppt::optional::object<I>;
-  values<T> v;
-  v.emplace_back("default", T());
-  v.emplace_back("ctor", T(I()));
-  for (int x : dom) v.emplace_back("ctor", T(I(x)));
+  c17::order<T> v("optional", "optional<optional<int>>");
+  v.add("default", T());
+  v.add("ctor", T(I()));
+  for (int x : dom) v.add("ctor", T(I(x)));
   {
     T o(I(1));
     o = T(I());
-    v.emplace_back("inner_reset", o);
+    v.add("inner_reset", o);
   }
   {
     T o(I(1));
     o = T();
-    v.emplace_back("reset", o);
+    v.add("reset", o);
   }
-  emit_order("optional<optional<int>>", v,
-             [](T const &o) {
-               if (!o.has_value()) return comp_t{0};
-               I const &i = o.get_unsafe();
-               return i.has_value() ? comp_t{1, 1, i.get_unsafe()} : comp_t{1, 0};
-             },
-             no_hash{});
+  {
+    T o(I(2));
+    o.get_unsafe() = I(0);
+    v.add("inner_assigned_through_get", o);
+  }
+  v.emit(
+      [](T const &o) {
+        if (!o.has_value()) return comp_t{0};
+        I const &i = o.get_unsafe();
+        return i.has_value() ? comp_t{1, 1, i.get_unsafe()} : comp_t{1, 0};
+      },
+      no_hash{});
 }
+}
+C17_PART(optional)
+{
+  if (c17::take()) optional_int();
+  if (c17::take()) optional_optional();
+}
+#endif
 
+// ================================================================ either
+#ifdef C17_SECTION_either
+#include <fcppt/either/comparison.hpp>
+#include <fcppt/either/object.hpp>
+namespace
+{
 void either_int_long()
 {
   using T = fcppt::either::object<int, long>;
-  values<T> v;
-  for (int x : dom) v.emplace_back("failure", T(x));
-  for (int x : dom) v.emplace_back("success", T(static_cast<long>(x)));
+  c17::order<T> v("either", "either<int,long>");
+  // (failure x and success x carry an equal payload in different alternatives)
+  for (int x : dom) v.add("failure", T(x));
+  for (int x : dom) v.add("success", T(static_cast<long>(x)));
   {
     T e(1);
     e = T(1L);
-    v.emplace_back("failure_then_success", e);
+    v.add("failure_then_success", e);
   }
   {
     T e(2L);
     e = T(2);
-    v.emplace_back("success_then_failure", e);
+    v.add("success_then_failure", e);
   }
-  emit_order("either<int,long>", v,
-             [](T const &e) {
-               return e.has_success() ? comp_t{1, e.get_success_unsafe()} : comp_t{0, e.get_failure_unsafe()};
-             },
-             no_hash{});
+  {
+    T a(0L);
+    T b(std::move(a));
+    v.add("moved_into", b);
+  }
+  {
+    T a(0);
+    T b(1L);
+    b = a;
+    v.add("copy_assigned_failure", b);
+  }
+  v.emit(
+      [](T const &e) { return e.has_success() ? comp_t{1, e.get_success_unsafe()} : comp_t{0, e.get_failure_unsafe()}; },
+      no_hash{});
 }
+}
+C17_PART(either)
+{
+  if (c17::take()) either_int_long();
+}
+#endif
 
+// ================================================================ variant
+#ifdef C17_SECTION_variant
+#include <fcppt/variant/comparison.hpp>
+#include <fcppt/variant/get_unsafe.hpp>
+#include <fcppt/variant/holds_type.hpp>
+#include <fcppt/variant/object.hpp>
+namespace
+{
 void variant_int_long()
 {
   using T = fcppt::variant::object<int, long>;
-  values<T> v;
-  for (int x : dom) v.emplace_back("int", T(x));
-  for (int x : dom) v.emplace_back("long", T(static_cast<long>(x)));
+  c17::order<T> v("variant", "variant<int,long>");
+  for (int x : dom) v.add("int", T(x));
+  for (int x : dom) v.add("long", T(static_cast<long>(x)));
   {
     T a(1);
     a = T(1L);
-    v.emplace_back("int_then_long", a);
+    v.add("int_then_long", a);
   }
   {
     T a(0L);
     a = T(0);
-    v.emplace_back("long_then_int", a);
+    v.add("long_then_int", a);
   }
   {
     T a(2L);
     T b(2);
     b = a;
-    v.emplace_back("copy_assigned", b);
+    v.add("copy_assigned", b);
   }
-  emit_order("variant<int,long>", v,
-             [](T const &a) {
-               return fcppt::variant::holds_type<int>(a)
-                          ? comp_t{static_cast<long long>(a.type_index()), fcppt::variant::get_unsafe<int>(a)}
-                          : comp_t{static_cast<long long>(a.type_index()), fcppt::variant::get_unsafe<long>(a)};
-             },
-             no_hash{});
+  v.emit(
+      [](T const &a) {
+        return fcppt::variant::holds_type<int>(a)
+                   ? comp_t{c17::cl(a.type_index()), fcppt::variant::get_unsafe<int>(a)}
+                   : comp_t{c17::cl(a.type_index()), fcppt::variant::get_unsafe<long>(a)};
+      },
+      no_hash{});
 }
 
+void variant_three()
+{
+  // three alternatives: equal payloads in every alternative, the last index included
+  using T = fcppt::variant::object<int, long, unsigned>;
+  c17::order<T> v("variant", "variant<int,long,unsigned>");
+  for (int x : dom) v.add("int", T(x));
+  for (int x : dom) v.add("long", T(static_cast<long>(x)));
+  for (int x : dom) v.add("unsigned", T(static_cast<unsigned>(x)));
+  {
+    T a(2);
+    a = T(1U);
+    v.add("int_then_unsigned", a);
+  }
+  {
+    T a(0U);
+    a = T(0L);
+    v.add("unsigned_then_long", a);
+  }
+  {
+    T a(2U);
+    T b(std::move(a));
+    v.add("moved_into", b);
+  }
+  v.emit(
+      [](T const &a) {
+        long long const i = c17::cl(a.type_index());
+        if (fcppt::variant::holds_type<int>(a)) return comp_t{i, fcppt::variant::get_unsafe<int>(a)};
+        if (fcppt::variant::holds_type<long>(a)) return comp_t{i, fcppt::variant::get_unsafe<long>(a)};
+        return comp_t{i, c17::cl(fcppt::variant::get_unsafe<unsigned>(a))};
+      },
+      no_hash{});
+}
+}
+C17_PART(variant)
+{
+  if (c17::take()) variant_int_long();
+  if (c17::take()) variant_three();
+}
+#endif
+
+// ================================================================ tuple
+#ifdef C17_SECTION_tuple
+#include <fcppt/tuple/comparison.hpp>
+#include <fcppt/tuple/get.hpp>
+#include <fcppt/tuple/object.hpp>
+namespace
+{
 void tuple_int_int()
 {
   using T = fcppt::tuple::object<int, int>;
-  values<T> v;
+  c17::order<T> v("tuple", "tuple<int,int>");
   for (int x : dom)
-    for (int y : dom) v.emplace_back("ctor", T(x, y));
+    for (int y : dom) v.add("ctor", T(x, y));
   {
     T t(0, 0);
     fcppt::tuple::get<0>(t) = 2;
     fcppt::tuple::get<1>(t) = 1;
-    v.emplace_back("mutated", t);
+    v.add("mutated", t);
   }
-  emit_order("tuple<int,int>", v,
-             [](T const &t) { return comp_t{fcppt::tuple::get<0>(t), fcppt::tuple::get<1>(t)}; }, no_hash{});
+  v.emit([](T const &t) { return comp_t{fcppt::tuple::get<0>(t), fcppt::tuple::get<1>(t)}; }, no_hash{});
 }
+void tuple_three()
+{
+  using T = fcppt::tuple::object<int, long, int>;
+  c17::order<T> v("tuple", "tuple<int,long,int>");
+  for (int x : dom)
+    for (int y : dom)
+      for (int z : dom) v.add("ctor", T(x, static_cast<long>(y), z));
+  {
+    T t(0, 0L, 0);
+    fcppt::tuple::get<2>(t) = 2;
+    v.add("last_mutated", t);
+  }
+  {
+    T t(1, 1L, 1);
+    T u(0, 0L, 0);
+    u = t;
+    v.add("copy_assigned", u);
+  }
+  v.emit([](T const &t) { return comp_t{fcppt::tuple::get<0>(t), fcppt::tuple::get<1>(t), fcppt::tuple::get<2>(t)}; }, no_hash{});
+}
+void tuple_one()
+{
+  using T = fcppt::tuple::object<int>;
+  c17::order<T> v("tuple", "tuple<int>");
+  for (int x : dom) v.add("ctor", T(x));
+  {
+    T t(0);
+    fcppt::tuple::get<0>(t) = 1;
+    v.add("mutated", t);
+  }
+  v.emit([](T const &t) { return comp_t{fcppt::tuple::get<0>(t)}; }, no_hash{});
+}
+}
+C17_PART(tuple)
+{
+  if (c17::take()) tuple_int_int();
+  if (c17::take()) tuple_three();
+  if (c17::take()) tuple_one();
+}
+#endif
 
+// ================================================================ array
+#ifdef C17_SECTION_array
+#include <fcppt/array/comparison.hpp>
+#include <fcppt/array/get.hpp>
+#include <fcppt/array/object.hpp>
+#include <fcppt/range/hash.hpp>
+namespace
+{
 void array_int_2()
 {
   using T = fcppt::array::object<int, 2>;
-  values<T> v;
+  c17::order<T> v("array", "array<int,2>");
   for (int x : dom)
-    for (int y : dom) v.emplace_back("ctor", T{x, y});
+    for (int y : dom) v.add("ctor", T{x, y});
   {
     T t{0, 0};
     fcppt::array::get<0>(t) = 1;
     fcppt::array::get<1>(t) = 2;
-    v.emplace_back("mutated", t);
+    v.add("mutated", t);
   }
-  emit_order("array<int,2>", v,
-             [](T const &t) { return comp_t{fcppt::array::get<0>(t), fcppt::array::get<1>(t)}; },
-             [](T const &t) { return fcppt::range::hash<T>{}(t); });
+  v.emit([](T const &t) { return comp_t{fcppt::array::get<0>(t), fcppt::array::get<1>(t)}; },
+         [](T const &t) { return fcppt::range::hash<T>{}(t); });
 }
+void array_int_3()
+{
+  using T = fcppt::array::object<int, 3>;
+  c17::order<T> v("array", "array<int,3>");
+  for (int x : dom)
+    for (int y : dom)
+      for (int z : dom) v.add("ctor", T{x, y, z});
+  {
+    T t{0, 0, 0};
+    fcppt::array::get<2>(t) = 2;
+    v.add("last_mutated", t);
+  }
+  {
+    T t{2, 1, 0};
+    T u{0, 0, 0};
+    u = t;
+    v.add("copy_assigned", u);
+  }
+  v.emit([](T const &t) { return comp_t{fcppt::array::get<0>(t), fcppt::array::get<1>(t), fcppt::array::get<2>(t)}; },
+         [](T const &t) { return fcppt::range::hash<T>{}(t); });
+}
+void array_int_1()
+{
+  using T = fcppt::array::object<int, 1>;
+  c17::order<T> v("array", "array<int,1>");
+  for (int x : dom) v.add("ctor", T{x});
+  {
+    T t{0};
+    fcppt::array::get<0>(t) = 2;
+    v.add("mutated", t);
+  }
+  v.emit([](T const &t) { return comp_t{fcppt::array::get<0>(t)}; }, [](T const &t) { return fcppt::range::hash<T>{}(t); });
+}
+}
+C17_PART(array)
+{
+  if (c17::take()) array_int_2();
+  if (c17::take()) array_int_3();
+  if (c17::take()) array_int_1();
+}
+#endif
 
+// ================================================================ record
+#ifdef C17_SECTION_record
+#include <fcppt/record/comparison.hpp>
+#include <fcppt/record/element.hpp>
+#include <fcppt/record/get.hpp>
+#include <fcppt/record/make_label.hpp>
+#include <fcppt/record/object.hpp>
+#include <fcppt/record/set.hpp>
+namespace
+{
 FCPPT_RECORD_MAKE_LABEL(label_a);
 FCPPT_RECORD_MAKE_LABEL(label_b);
+FCPPT_RECORD_MAKE_LABEL(label_c);
 
 void record_int_int()
 {
   using T = fcppt::record::object<fcppt::record::element<label_a, int>, fcppt::record::element<label_b, int>>;
-  values<T> v;
+  c17::order<T> v("record", "record<a:int,b:int>");
   for (int x : dom)
-    for (int y : dom) v.emplace_back("ctor", T(label_a{} = x, label_b{} = y));
+    for (int y : dom) v.add("ctor", T(label_a{} = x, label_b{} = y));
   {
     T t(label_a{} = 0, label_b{} = 0);
     fcppt::record::set<label_a>(t, 2);
     fcppt::record::set<label_b>(t, 2);
-    v.emplace_back("set", t);
+    v.add("set", t);
   }
   {
     // the same labels given in the other order
-    v.emplace_back("ctor_permuted", T(label_b{} = 1, label_a{} = 0));
+    v.add("ctor_permuted", T(label_b{} = 1, label_a{} = 0));
   }
-  emit_order("record<a:int,b:int>", v,
-             [](T const &t) { return comp_t{fcppt::record::get<label_a>(t), fcppt::record::get<label_b>(t)}; },
-             no_hash{});
+  v.emit([](T const &t) { return comp_t{fcppt::record::get<label_a>(t), fcppt::record::get<label_b>(t)}; }, no_hash{});
 }
 
+// record/comparison.hpp compares any two EQUIVALENT record types ("Both records must be equivalent"):
+// the same labels listed in another order.  Values of both types in one value set.
+void record_permuted()
+{
+  using A = fcppt::record::object<fcppt::record::element<label_a, int>, fcppt::record::element<label_b, int>>;
+  using B = fcppt::record::object<fcppt::record::element<label_b, int>, fcppt::record::element<label_a, int>>;
+  using T = c17::het<A, B>;
+  c17::order<T> v("record", "record<a:int,b:int>|record<b:int,a:int>");
+  for (int x : dom)
+    for (int y : dom)
+    {
+      v.add("a_b", T{A(label_a{} = x, label_b{} = y)});
+      v.add("b_a", T{B(label_b{} = y, label_a{} = x)});
+    }
+  {
+    B t(label_a{} = 0, label_b{} = 0);
+    fcppt::record::set<label_b>(t, 1);
+    v.add("b_a_set", T{t});
+  }
+  v.emit(
+      [](T const &t) {
+        return std::visit([](auto const &r) { return comp_t{fcppt::record::get<label_a>(r), fcppt::record::get<label_b>(r)}; }, t.v);
+      },
+      no_hash{});
+}
+
+void record_three()
+{
+  using A = fcppt::record::object<fcppt::record::element<label_a, int>, fcppt::record::element<label_b, long>,
+                                  fcppt::record::element<label_c, int>>;
+  using B = fcppt::record::object<fcppt::record::element<label_c, int>, fcppt::record::element<label_a, int>,
+                                  fcppt::record::element<label_b, long>>;
+  using T = c17::het<A, B>;
+  c17::order<T> v("record", "record<a:int,b:long,c:int>|record<c,a,b>");
+  for (int x : dom2)
+    for (int y : dom2)
+      for (int z : dom2)
+      {
+        v.add("a_b_c", T{A(label_a{} = x, label_b{} = static_cast<long>(y), label_c{} = z)});
+        v.add("c_a_b", T{B(label_c{} = z, label_a{} = x, label_b{} = static_cast<long>(y))});
+      }
+  v.emit(
+      [](T const &t) {
+        return std::visit(
+            [](auto const &r) {
+              return comp_t{fcppt::record::get<label_a>(r), fcppt::record::get<label_b>(r), fcppt::record::get<label_c>(r)};
+            },
+            t.v);
+      },
+      no_hash{});
+}
+}
+C17_PART(record)
+{
+  if (c17::take()) record_int_int();
+  if (c17::take()) record_permuted();
+  if (c17::take()) record_three();
+}
+#endif
+
+// ================================================================ strong_typedef (as a value type)
+#ifdef C17_SECTION_strong
+#include <fcppt/make_strong_typedef.hpp>
+#include <fcppt/strong_typedef.hpp>
+#include <fcppt/strong_typedef_arithmetic.hpp>
+#include <fcppt/strong_typedef_comparison.hpp>
+#include <fcppt/strong_typedef_hash.hpp>
+#include <fcppt/strong_typedef_std_hash.hpp>
+#include <functional>
+namespace
+{
 FCPPT_MAKE_STRONG_TYPEDEF(int, st_int);
 FCPPT_MAKE_STRONG_TYPEDEF(unsigned, st_uint);
 
-void strong_typedef_int()
+void fill_int(c17::order<st_int> &v)
 {
   using T = st_int;
-  values<T> v;
-  for (int x : {-1, 0, 1, 2}) v.emplace_back("ctor", T(x));
-  v.emplace_back("sum", T(1) + T(1));
-  v.emplace_back("difference", T(1) - T(2));
-  v.emplace_back("negated", -T(-1));
+  for (int x : {-1, 0, 1, 2}) v.add("ctor", T(x));
+  v.add("sum", T(1) + T(1));
+  v.add("difference", T(1) - T(2));
+  v.add("negated", -T(-1));
   {
     T t(0);
     ++t;
-    v.emplace_back("incremented", t);
+    v.add("incremented", t);
   }
-  emit_order("strong_typedef<int>", v, [](T const &t) { return comp_t{t.get()}; },
-             [](T const &t) { return fcppt::strong_typedef_hash<T>{}(t); });
-  emit_order("strong_typedef<int>/std::hash", v, [](T const &t) { return comp_t{t.get()}; },
-             [](T const &t) { return std::hash<T>{}(t); });
+  {
+    T t(5);
+    t = T(0);
+    v.add("assigned", t);
+  }
+}
+void strong_typedef_int()
+{
+  using T = st_int;
+  c17::order<T> v("strong_typedef", "strong_typedef<int>");
+  fill_int(v);
+  v.emit([](T const &t) { return comp_t{t.get()}; }, [](T const &t) { return fcppt::strong_typedef_hash<T>{}(t); });
+}
+void strong_typedef_int_std()
+{
+  using T = st_int;
+  c17::order<T> v("strong_typedef", "strong_typedef<int>/std::hash");
+  fill_int(v);
+  v.emit([](T const &t) { return comp_t{t.get()}; }, [](T const &t) { return std::hash<T>{}(t); });
+}
+void strong_typedef_unsigned()
+{
   using U = st_uint;
-  values<U> u;
-  for (unsigned x : {0U, 1U, 2U, 4294967295U}) u.emplace_back("ctor", U(x));
-  u.emplace_back("wrapped_sum", U(4294967295U) + U(1U));
-  u.emplace_back("wrapped_difference", U(0U) - U(1U));
-  emit_order("strong_typedef<unsigned>", u,
-             [](U const &t) { return comp_t{static_cast<long long>(t.get() >> 16U), static_cast<long long>(t.get() & 0xFFFFU)}; },
-             [](U const &t) { return fcppt::strong_typedef_hash<U>{}(t); });
+  c17::order<U> u("strong_typedef", "strong_typedef<unsigned>");
+  for (unsigned x : {0U, 1U, 2U, 4294967295U, 2147483648U, 2147483647U}) u.add("ctor", U(x));
+  u.add("wrapped_sum", U(4294967295U) + U(1U));
+  u.add("wrapped_difference", U(0U) - U(1U));
+  u.add("wrapped_product", U(65536U) * U(32768U));
+  u.emit([](U const &t) { return comp_t{static_cast<long long>(t.get() >> 16U), static_cast<long long>(t.get() & 0xFFFFU)}; },
+         [](U const &t) { return fcppt::strong_typedef_hash<U>{}(t); });
 }
-
-void math_types()
+}
+C17_PART(strong)
 {
+  if (c17::take()) strong_typedef_int();
+  if (c17::take()) strong_typedef_int_std();
+  if (c17::take()) strong_typedef_unsigned();
+}
+#endif
+
+// ================================================================ math vector / dim
+#ifdef C17_SECTION_vector
+#include <fcppt/math/dim/comparison.hpp>
+#include <fcppt/math/dim/static.hpp>
+#include <fcppt/math/dim/std_hash.hpp>
+#include <fcppt/math/matrix/row.hpp>
+#include <fcppt/math/matrix/static.hpp>
+#include <fcppt/math/vector/comparison.hpp>
+#include <fcppt/math/vector/static.hpp>
+#include <fcppt/math/vector/std_hash.hpp>
+#include <functional>
+#include <memory>
+namespace
+{
+template <typename T, std::size_t N>
+comp_t coords(T const &t)
+{
+  comp_t c;
+  for (std::size_t i = 0; i < N; ++i) c.push_back(t.get_unsafe(i));
+  return c;
+}
+void vector_2()
+{
+  using T = fcppt::math::vector::static_<int, 2>;
+  c17::order<T> v("vector", "vector<int,2>");
+  for (int x : dom)
+    for (int y : dom) v.add("ctor", T(x, y));
   {
-    using T = fcppt::math::vector::static_<int, 2>;
-    values<T> v;
-    for (int x : dom)
-      for (int y : dom) v.emplace_back("ctor", T(x, y));
+    T t(0, 0);
+    t.x() = 1;
+    t.y() = 1;
+    v.add("mutated", t);
+  }
+  v.emit([](T const &t) { return comp_t{t.x(), t.y()}; }, [](T const &t) { return std::hash<T>{}(t); });
+}
+void vector_3()
+{
+  using T = fcppt::math::vector::static_<int, 3>;
+  c17::order<T> v("vector", "vector<int,3>");
+  for (int x : dom)
+    for (int y : dom)
+      for (int z : dom) v.add("ctor", T(x, y, z));
+  v.emit([](T const &t) { return comp_t{t.x(), t.y(), t.z()}; }, [](T const &t) { return std::hash<T>{}(t); });
+}
+void vector_4()
+{
+  using T = fcppt::math::vector::static_<int, 4>;
+  c17::order<T> v("vector", "vector<int,4>");
+  for (int x : dom2)
+    for (int y : dom2)
+      for (int z : dom2)
+        for (int w : dom2) v.add("ctor", T(x, y, z, w));
+  for (int w : dom) v.add("ctor", T(2, 0, 1, w));
+  {
+    T t(0, 0, 0, 0);
+    t.w() = 2;
+    v.add("last_mutated", t);
+  }
+  {
+    T t(1, 1, 1, 0);
+    T u(0, 0, 0, 0);
+    u = t;
+    v.add("copy_assigned", u);
+  }
+  v.emit([](T const &t) { return coords<T, 4>(t); }, [](T const &t) { return std::hash<T>{}(t); });
+}
+void vector_1()
+{
+  using T = fcppt::math::vector::static_<int, 1>;
+  c17::order<T> v("vector", "vector<int,1>");
+  for (int x : dom) v.add("ctor", T(x));
+  {
+    T t(0);
+    t.x() = 2;
+    v.add("mutated", t);
+  }
+  v.emit([](T const &t) { return coords<T, 1>(t); }, [](T const &t) { return std::hash<T>{}(t); });
+}
+void dim_2()
+{
+  using T = fcppt::math::dim::static_<int, 2>;
+  c17::order<T> v("dim", "dim<int,2>");
+  for (int x : dom)
+    for (int y : dom) v.add("ctor", T(x, y));
+  v.emit([](T const &t) { return comp_t{t.w(), t.h()}; }, [](T const &t) { return std::hash<T>{}(t); });
+}
+void dim_3()
+{
+  using T = fcppt::math::dim::static_<int, 3>;
+  c17::order<T> v("dim", "dim<int,3>");
+  for (int x : dom)
+    for (int y : dom)
+      for (int z : dom) v.add("ctor", T(x, y, z));
+  {
+    T t(1, 1, 1);
+    t.d() = 0;
+    v.add("last_mutated", t);
+  }
+  v.emit([](T const &t) { return comp_t{t.w(), t.h(), t.d()}; }, [](T const &t) { return std::hash<T>{}(t); });
+}
+// vector/comparison.hpp: "template <typename T, size_type N, typename S1, typename S2>": vectors with
+// different storage are compared as well - a static vector and a row of a matrix (row_view storage)
+void vector_storage()
+{
+  using M = fcppt::math::matrix::static_<int, 2, 2>;
+  using A = fcppt::math::vector::static_<int, 2>;
+  using B = typename M::const_reference;
+  using T = c17::het<A, B, false>; // (operator< between different storages does not instantiate: not offered)
+  c17::order<T> v("vector-storages", "vector<int,2>|matrix-row");
+  static std::vector<std::unique_ptr<M const>> keep; // the rows refer into these matrices
+  for (int x : dom)
+    for (int y : dom)
     {
-      T t(0, 0);
-      t.x() = 1;
-      t.y() = 1;
-      v.emplace_back("mutated", t);
+      v.add("static", T{A(x, y)});
+      keep.push_back(std::make_unique<M const>(fcppt::math::matrix::row(x, y), fcppt::math::matrix::row(y, x)));
+      v.add("first_row", T{keep.back()->get_unsafe(0)});
     }
-    emit_order("vector<int,2>", v, [](T const &t) { return comp_t{t.x(), t.y()}; },
-               [](T const &t) { return std::hash<T>{}(t); });
-  }
-  {
-    using T = fcppt::math::vector::static_<int, 3>;
-    values<T> v;
-    for (int x : dom)
-      for (int y : dom)
-        for (int z : dom) v.emplace_back("ctor", T(x, y, z));
-    emit_order("vector<int,3>", v, [](T const &t) { return comp_t{t.x(), t.y(), t.z()}; },
-               [](T const &t) { return std::hash<T>{}(t); });
-  }
-  {
-    using T = fcppt::math::dim::static_<int, 2>;
-    values<T> v;
-    for (int x : dom)
-      for (int y : dom) v.emplace_back("ctor", T(x, y));
-    emit_order("dim<int,2>", v, [](T const &t) { return comp_t{t.w(), t.h()}; },
-               [](T const &t) { return std::hash<T>{}(t); });
-  }
-  {
-    using T = fcppt::math::matrix::static_<int, 2, 2>;
-    values<T> v;
-    for (int a : dom)
-      for (int b : dom)
-        for (int c : dom)
-          for (int d : dom) v.emplace_back("ctor", T(fcppt::math::matrix::row(a, b), fcppt::math::matrix::row(c, d)));
-    emit_order("matrix<int,2,2>", v,
-               [](T const &t) {
-                 using fcppt::math::matrix::at_r_c;
-                 return comp_t{at_r_c<0, 0>(t), at_r_c<0, 1>(t), at_r_c<1, 0>(t), at_r_c<1, 1>(t)};
-               },
-               [](T const &t) { return std::hash<T>{}(t); });
-  }
-  {
-    using T = fcppt::math::box::object<int, 2>;
-    values<T> v;
-    for (int a : dom)
-      for (int b : dom)
-        for (int c : dom)
-          for (int d : dom) v.emplace_back("ctor", T(typename T::vector(a, b), typename T::dim(c, d)));
-    emit_order("box<int,2>", v,
-               [](T const &t) { return comp_t{t.pos().x(), t.pos().y(), t.size().w(), t.size().h()}; }, no_hash{});
-  }
-  {
-    using T = fcppt::math::box::object<int, 1>;
-    values<T> v;
-    for (int a : dom)
-      for (int c : dom) v.emplace_back("ctor", T(typename T::vector(a), typename T::dim(c)));
-    emit_order("box<int,1>", v, [](T const &t) { return comp_t{t.pos().x(), t.size().w()}; }, no_hash{});
-  }
-  {
-    using T = fcppt::math::sphere::object<int, 2>;
-    values<T> v;
-    for (int a : dom)
-      for (int b : dom)
-        for (int c : dom) v.emplace_back("ctor", T(typename T::point_type(a, b), c));
-    emit_order("sphere<int,2>", v,
-               [](T const &t) { return comp_t{t.origin().x(), t.origin().y(), t.radius()}; }, no_hash{});
-  }
+  for (int x : dom) v.add("second_row", T{keep[static_cast<std::size_t>(x)]->get_unsafe(1)}); // rows (x,0) of the matrices [(0,x),(x,0)]
+  v.emit([](T const &t) { return std::visit([](auto const &r) { return comp_t{r.get_unsafe(0), r.get_unsafe(1)}; }, t.v); },
+         [](T const &t) { return std::visit([](auto const &r) { return std::hash<std::remove_cvref_t<decltype(r)>>{}(r); }, t.v); });
 }
-
-enum class e3 { v0, v1, v2, fcppt_maximum = v2 };
-
-void bitfield_e3()
+}
+C17_PART(vector)
 {
-  using T = fcppt::container::bitfield::object<e3, std::uint8_t>;
-  values<T> v;
-  auto const build = [](unsigned m) {
+  if (c17::take()) vector_2();
+  if (c17::take()) vector_3();
+  if (c17::take()) vector_4();
+  if (c17::take()) vector_1();
+  if (c17::take()) dim_2();
+  if (c17::take()) dim_3();
+  if (c17::take()) vector_storage();
+}
+#endif
+
+// ================================================================ math matrix
+#ifdef C17_SECTION_matrix
+#include <fcppt/math/matrix/at_r_c.hpp>
+#include <fcppt/math/matrix/comparison.hpp>
+#include <fcppt/math/matrix/row.hpp>
+#include <fcppt/math/matrix/static.hpp>
+#include <fcppt/math/matrix/std_hash.hpp>
+#include <functional>
+namespace
+{
+void matrix_2_2()
+{
+  using T = fcppt::math::matrix::static_<int, 2, 2>;
+  c17::order<T> v("matrix", "matrix<int,2,2>");
+  for (int a : dom)
+    for (int b : dom)
+      for (int c : dom)
+        for (int d : dom) v.add("ctor", T(fcppt::math::matrix::row(a, b), fcppt::math::matrix::row(c, d)));
+  v.emit(
+      [](T const &t) {
+        using fcppt::math::matrix::at_r_c;
+        return comp_t{at_r_c<0, 0>(t), at_r_c<0, 1>(t), at_r_c<1, 0>(t), at_r_c<1, 1>(t)};
+      },
+      [](T const &t) { return std::hash<T>{}(t); });
+}
+void matrix_3_2()
+{
+  using T = fcppt::math::matrix::static_<int, 3, 2>;
+  c17::order<T> v("matrix", "matrix<int,3,2>");
+  for (int a : dom2)
+    for (int b : dom2)
+      for (int c : dom2)
+        for (int d : dom2)
+          for (int e : dom2)
+            for (int f : dom2)
+              v.add("ctor", T(fcppt::math::matrix::row(a, b), fcppt::math::matrix::row(c, d), fcppt::math::matrix::row(e, f)));
+  {
+    T t(fcppt::math::matrix::row(0, 0), fcppt::math::matrix::row(0, 0), fcppt::math::matrix::row(0, 0));
+    fcppt::math::matrix::at_r_c<2, 1>(t) = 1;
+    v.add("last_mutated", t);
+  }
+  v.emit(
+      [](T const &t) {
+        using fcppt::math::matrix::at_r_c;
+        return comp_t{at_r_c<0, 0>(t), at_r_c<0, 1>(t), at_r_c<1, 0>(t), at_r_c<1, 1>(t), at_r_c<2, 0>(t), at_r_c<2, 1>(t)};
+      },
+      [](T const &t) { return std::hash<T>{}(t); });
+}
+}
+C17_PART(matrix)
+{
+  if (c17::take()) matrix_2_2();
+  if (c17::take()) matrix_3_2();
+}
+#endif
+
+// ================================================================ math box
+#ifdef C17_SECTION_box
+#include <fcppt/math/box/comparison.hpp>
+#include <fcppt/math/box/object.hpp>
+namespace
+{
+void box_2()
+{
+  using T = fcppt::math::box::object<int, 2>;
+  c17::order<T> v("box", "box<int,2>");
+  for (int a : dom)
+    for (int b : dom)
+      for (int c : dom)
+        for (int d : dom) v.add("ctor", T(typename T::vector(a, b), typename T::dim(c, d)));
+  {
+    T t(typename T::vector(0, 0), typename T::dim(0, 0));
+    t.pos() = typename T::vector(2, 1);
+    t.max() = typename T::vector(3, 3);
+    v.add("pos_max_written", t);
+  }
+  v.emit([](T const &t) { return comp_t{t.pos().x(), t.pos().y(), t.size().w(), t.size().h()}; }, no_hash{});
+}
+void box_1()
+{
+  using T = fcppt::math::box::object<int, 1>;
+  c17::order<T> v("box", "box<int,1>");
+  for (int a : dom)
+    for (int c : dom) v.add("ctor", T(typename T::vector(a), typename T::dim(c)));
+  v.emit([](T const &t) { return comp_t{t.pos().x(), t.size().w()}; }, no_hash{});
+}
+void box_3()
+{
+  using T = fcppt::math::box::object<int, 3>;
+  c17::order<T> v("box", "box<int,3>");
+  for (int a : dom2)
+    for (int b : dom2)
+      for (int c : dom2)
+        for (int d : dom2)
+          for (int e : dom2)
+            for (int f : dom2) v.add("ctor", T(typename T::vector(a, b, c), typename T::dim(d, e, f)));
+  v.emit(
+      [](T const &t) { return comp_t{t.pos().x(), t.pos().y(), t.pos().z(), t.size().w(), t.size().h(), t.size().d()}; },
+      no_hash{});
+}
+}
+C17_PART(box)
+{
+  if (c17::take()) box_2();
+  if (c17::take()) box_1();
+  if (c17::take()) box_3();
+}
+#endif
+
+// ================================================================ math sphere
+#ifdef C17_SECTION_sphere
+#include <fcppt/math/sphere/comparison.hpp>
+#include <fcppt/math/sphere/object.hpp>
+namespace
+{
+void sphere_2()
+{
+  using T = fcppt::math::sphere::object<int, 2>;
+  c17::order<T> v("sphere", "sphere<int,2>");
+  for (int a : dom)
+    for (int b : dom)
+      for (int c : dom) v.add("ctor", T(typename T::point_type(a, b), c));
+  {
+    T t(typename T::point_type(0, 0), 0);
+    t.radius() = 2;
+    t.origin() = typename T::point_type(1, 1);
+    v.add("mutated", t);
+  }
+  v.emit([](T const &t) { return comp_t{t.origin().x(), t.origin().y(), t.radius()}; }, no_hash{});
+}
+void sphere_3()
+{
+  using T = fcppt::math::sphere::object<int, 3>;
+  c17::order<T> v("sphere", "sphere<int,3>");
+  for (int a : dom2)
+    for (int b : dom2)
+      for (int c : dom2)
+        for (int r : dom2) v.add("ctor", T(typename T::point_type(a, b, c), r));
+  v.emit([](T const &t) { return comp_t{t.origin().x(), t.origin().y(), t.origin().z(), t.radius()}; }, no_hash{});
+}
+}
+C17_PART(sphere)
+{
+  if (c17::take()) sphere_2();
+  if (c17::take()) sphere_3();
+}
+#endif
+
+// ================================================================ bitfield
+#ifdef C17_SECTION_bitfield
+#include <fcppt/container/bitfield/comparison.hpp>
+#include <fcppt/container/bitfield/hash.hpp>
+#include <fcppt/container/bitfield/init.hpp>
+#include <fcppt/container/bitfield/object.hpp>
+#include <fcppt/container/bitfield/operators.hpp>
+#include <fcppt/container/bitfield/std_hash.hpp>
+#include <cstdint>
+#include <functional>
+namespace
+{
+enum class e3 { v0, v1, v2, fcppt_maximum = v2 };
+// enumerations whose bitfield has a PARTIALLY USED SECOND WORD: 9 and 11 enumerators in uint8_t
+// words, 17 in uint16_t words (and 17 in uint8_t words: three words; 9 with the default internal type: one
+// partially used word)
+enum class e9 { v0, v1, v2, v3, v4, v5, v6, v7, v8, fcppt_maximum = v8 };
+enum class e11 { v0, v1, v2, v3, v4, v5, v6, v7, v8, v9, v10, fcppt_maximum = v10 };
+enum class e17 { v0, v1, v2, v3, v4, v5, v6, v7, v8, v9, v10, v11, v12, v13, v14, v15, v16, fcppt_maximum = v16 };
+
+// the same sets produced by set(), by init, by ~ of the complement, by ~~, by ^ with ~null and by | of
+// two halves followed by & with ~null; the sets include every word boundary and the last enumerator
+template <typename T, typename E, unsigned N, typename Hash>
+void bitfield_values(char const *const type, Hash const &hash)
+{
+  c17::order<T> v("bitfield", type);
+  unsigned long const all = (1UL << N) - 1UL;
+  auto const build = [](unsigned long const m) {
     T r(T::null());
-    for (unsigned i = 0; i < 3; ++i)
-      if ((m >> i) & 1U) r.set(static_cast<e3>(i), true);
+    for (unsigned i = 0; i < N; ++i)
+      if ((m >> i) & 1UL) r.set(static_cast<E>(i), true);
     return r;
   };
-  for (unsigned m = 0; m < 8; ++m) v.emplace_back("set", build(m));
-  for (unsigned m = 0; m < 8; ++m) v.emplace_back("complement_of_complement_set", ~build(~m & 7U));
-  for (unsigned m = 0; m < 8; ++m)
-    v.emplace_back("init", fcppt::container::bitfield::init<T>([m](e3 e) { return ((m >> static_cast<unsigned>(e)) & 1U) != 0U; }));
-  for (unsigned m : {0U, 5U, 7U}) v.emplace_back("xor_with_all", build(~m & 7U) ^ ~T::null());
-  auto const comp = [](T const &t) { return comp_t{t.get(e3::v0), t.get(e3::v1), t.get(e3::v2)}; };
-  emit_order("bitfield<e3,u8>", v, comp, [](T const &t) { return fcppt::container::bitfield::hash<T>{}(t); });
-  emit_order("bitfield<e3,u8>/std::hash", v, comp, [](T const &t) { return std::hash<T>{}(t); });
+  std::vector<unsigned long> masks;
+  if (N <= 3)
+    for (unsigned long m = 0; m <= all; ++m) masks.push_back(m);
+  else
+    masks = {0UL, all, 1UL, 1UL << (N - 1U), all & 0xFFUL, all & ~0xFFUL, all & 0x15555UL, all & ~(1UL << 8U)};
+  for (unsigned long const m : masks)
+  {
+    v.add("set", build(m));
+    v.add("init", fcppt::container::bitfield::init<T>([m](E const e) { return ((m >> static_cast<unsigned>(e)) & 1UL) != 0UL; }));
+    v.add("complement_of_complement_set", ~build(~m & all));
+    v.add("double_complement", ~~build(m));
+    v.add("xor_with_all", build(~m & all) ^ ~T::null());
+    {
+      T t(build(m & 0xFFUL));
+      t |= build(m & ~0xFFUL);
+      t &= ~T::null();
+      v.add("or_of_halves_and_all", t);
+    }
+  }
+  v.emit(
+      [](T const &t) {
+        comp_t c;
+        for (unsigned i = 0; i < N; ++i) c.push_back(t.get(static_cast<E>(i)) ? 1 : 0);
+        return c;
+      },
+      hash);
 }
+template <typename E, typename I, unsigned N>
+void bitfield_both(char const *const type, char const *const type_std)
+{
+  using T = fcppt::container::bitfield::object<E, I>;
+  if (c17::take()) bitfield_values<T, E, N>(type, [](T const &t) { return fcppt::container::bitfield::hash<T>{}(t); });
+  if (c17::take()) bitfield_values<T, E, N>(type_std, [](T const &t) { return std::hash<T>{}(t); });
+}
+}
+C17_PART(bitfield)
+{
+  bitfield_both<e3, std::uint8_t, 3>("bitfield<e3,u8>", "bitfield<e3,u8>/std::hash");
+  bitfield_both<e9, std::uint8_t, 9>("bitfield<e9,u8>", "bitfield<e9,u8>/std::hash");
+  bitfield_both<e11, std::uint8_t, 11>("bitfield<e11,u8>", "bitfield<e11,u8>/std::hash");
+  bitfield_both<e17, std::uint16_t, 17>("bitfield<e17,u16>", "bitfield<e17,u16>/std::hash");
+  {
+    // three words, the last one with a single used bit
+    using T = fcppt::container::bitfield::object<e17, std::uint8_t>;
+    if (c17::take()) bitfield_values<T, e17, 17>("bitfield<e17,u8>", [](T const &t) { return fcppt::container::bitfield::hash<T>{}(t); });
+  }
+  {
+    using T = fcppt::container::bitfield::object<e9>;
+    if (c17::take()) bitfield_values<T, e9, 9>("bitfield<e9,default>", [](T const &t) { return fcppt::container::bitfield::hash<T>{}(t); });
+  }
+}
+#endif
 
+// ================================================================ enum array
+#ifdef C17_SECTION_enum_array
+#include <fcppt/enum/array.hpp>
+#include <fcppt/enum/array_comparison.hpp>
+namespace
+{
+enum class e3 { v0, v1, v2, fcppt_maximum = v2 };
+enum class e1 { v0, fcppt_maximum = v0 };
 void enum_array_e3()
 {
   using T = fcppt::enum_::array<e3, int>;
-  values<T> v;
+  c17::order<T> v("enum_array", "enum_array<e3,int>");
   for (int a : dom)
     for (int b : dom)
-      for (int c : dom) v.emplace_back("ctor", T{a, b, c});
+      for (int c : dom) v.add("ctor", T{a, b, c});
   {
     T t{0, 0, 0};
     t[e3::v2] = 2;
-    v.emplace_back("mutated", t);
+    v.add("mutated", t);
   }
-  emit_order("enum_array<e3,int>", v, [](T const &t) { return comp_t{t[e3::v0], t[e3::v1], t[e3::v2]}; }, no_hash{});
+  {
+    T t{1, 1, 1};
+    T u{0, 0, 0};
+    u = t;
+    v.add("copy_assigned", u);
+  }
+  v.emit([](T const &t) { return comp_t{t[e3::v0], t[e3::v1], t[e3::v2]}; }, no_hash{});
 }
+void enum_array_e1()
+{
+  using T = fcppt::enum_::array<e1, int>;
+  c17::order<T> v("enum_array", "enum_array<e1,int>");
+  for (int a : dom) v.add("ctor", T{a});
+  {
+    T t{0};
+    t[e1::v0] = 1;
+    v.add("mutated", t);
+  }
+  v.emit([](T const &t) { return comp_t{t[e1::v0]}; }, no_hash{});
+}
+}
+C17_PART(enum_array)
+{
+  if (c17::take()) enum_array_e3();
+  if (c17::take()) enum_array_e1();
+}
+#endif
 
+// ================================================================ grid
+#ifdef C17_SECTION_grid
+#include <fcppt/container/grid/comparison.hpp>
+#include <fcppt/container/grid/object.hpp>
+namespace
+{
+template <std::size_t N, typename T>
+comp_t grid_comp(T const &g)
+{
+  comp_t c;
+  for (std::size_t i = 0; i < N; ++i) c.push_back(c17::cl(g.size().get_unsafe(i)));
+  for (int x : g) c.push_back(x);
+  return c;
+}
 void grid_int_2()
 {
   using T = fcppt::container::grid::object<int, 2>;
-  values<T> v;
+  c17::order<T> v("grid", "grid<int,2>");
   using dim = typename T::dim;
-  v.emplace_back("default", T());
-  v.emplace_back("ctor", T(dim(0U, 0U), 0));
-  v.emplace_back("ctor", T(dim(1U, 0U), 0));
-  v.emplace_back("ctor", T(dim(0U, 1U), 0));
-  for (int a : dom) v.emplace_back("fill", T(dim(1U, 1U), a));
+  v.add("default", T());
+  v.add("ctor", T(dim(0U, 0U), 0));
+  v.add("ctor", T(dim(1U, 0U), 0));
+  v.add("ctor", T(dim(0U, 1U), 0));
+  for (int a : dom) v.add("fill", T(dim(1U, 1U), a));
+  // grids of different shape with equal cells
   for (int a : dom)
     for (int b : dom)
     {
       T g(dim(2U, 1U), a);
       *(g.begin() + 1) = b;
-      v.emplace_back("fill_then_write", g);
+      v.add("fill_then_write", g);
       T h(dim(1U, 2U), a);
       *(h.begin() + 1) = b;
-      v.emplace_back("fill_then_write", h);
+      v.add("fill_then_write", h);
     }
+  for (int a : dom2)
+  {
+    // four cells as 2x2, 4x1, 1x4; the last cell differs or not
+    for (int last : dom2)
+    {
+      T g(dim(2U, 2U), a);
+      *(g.begin() + 3) = last;
+      v.add("2x2", g);
+      T h(dim(4U, 1U), a);
+      *(h.begin() + 3) = last;
+      v.add("4x1", h);
+      T k(dim(1U, 4U), a);
+      *(k.begin() + 3) = last;
+      v.add("1x4", k);
+    }
+  }
   {
     T g(dim(2U, 1U), 1);
     T h(dim(1U, 1U), 0);
     h = g;
-    v.emplace_back("copy_assigned", h);
+    v.add("copy_assigned", h);
   }
-  emit_order("grid<int,2>", v,
-             [](T const &g) {
-               comp_t c{static_cast<long long>(g.size().w()), static_cast<long long>(g.size().h())};
-               for (int x : g) c.push_back(x);
-               return c;
-             },
-             no_hash{});
+  {
+    T g(dim(1U, 2U), 2);
+    T h(std::move(g));
+    v.add("moved_into", h);
+  }
+  {
+    T g(dim(2U, 2U), [](typename T::pos const &p) { return static_cast<int>(p.x() == 1U && p.y() == 1U); });
+    v.add("from_function", g);
+  }
+  v.emit([](T const &g) { return grid_comp<2>(g); }, no_hash{});
 }
+void grid_int_1()
+{
+  using T = fcppt::container::grid::object<int, 1>;
+  c17::order<T> v("grid", "grid<int,1>");
+  using dim = typename T::dim;
+  v.add("default", T());
+  v.add("ctor", T(dim(0U), 1));
+  for (int a : dom) v.add("fill", T(dim(1U), a));
+  for (int a : dom)
+    for (int b : dom)
+    {
+      T g(dim(2U), a);
+      *(g.begin() + 1) = b;
+      v.add("fill_then_write", g);
+    }
+  {
+    T g(dim(3U), 0);
+    v.add("fill", g);
+    *(g.begin() + 2) = 1;
+    v.add("last_written", g);
+  }
+  v.emit([](T const &g) { return grid_comp<1>(g); }, no_hash{});
+}
+void grid_int_3()
+{
+  using T = fcppt::container::grid::object<int, 3>;
+  c17::order<T> v("grid", "grid<int,3>");
+  using dim = typename T::dim;
+  v.add("default", T());
+  for (int a : dom2) v.add("1x1x1", T(dim(1U, 1U, 1U), a));
+  for (int a : dom2)
+    for (int b : dom2)
+    {
+      T g(dim(2U, 1U, 1U), a);
+      *(g.begin() + 1) = b;
+      v.add("2x1x1", g);
+      T h(dim(1U, 2U, 1U), a);
+      *(h.begin() + 1) = b;
+      v.add("1x2x1", h);
+      T k(dim(1U, 1U, 2U), a);
+      *(k.begin() + 1) = b;
+      v.add("1x1x2", k);
+    }
+  {
+    T g(dim(1U, 1U, 2U), 1);
+    T h(dim(2U, 1U, 1U), 0);
+    h = g;
+    v.add("copy_assigned", h);
+  }
+  v.emit([](T const &g) { return grid_comp<3>(g); }, no_hash{});
+}
+}
+C17_PART(grid)
+{
+  if (c17::take()) grid_int_2();
+  if (c17::take()) grid_int_1();
+  if (c17::take()) grid_int_3();
+}
+#endif
 
+// ================================================================ tree
+#ifdef C17_SECTION_tree
+#include <fcppt/container/tree/comparison.hpp>
+#include <fcppt/container/tree/object.hpp>
+namespace
+{
 void tree_int()
 {
   using T = fcppt::container::tree::object<int>;
-  values<T> v;
-  for (int a : dom) v.emplace_back("leaf", T(a));
+  c17::order<T> v("tree", "tree<int>");
+  for (int a : dom) v.add("leaf", T(a));
   for (int a : dom)
     for (int b : dom)
     {
       T t(a);
       t.push_back(b);
-      v.emplace_back("one_child", std::move(t));
+      v.add("one_child", std::move(t));
     }
+  // trees of different shape with the same pre-order sequence of values
   for (int a : {0, 1})
     for (int b : {0, 1})
       for (int c : {0, 1})
@@ -547,171 +1083,530 @@ void tree_int()
         T t(a);
         t.push_back(b);
         t.push_back(c);
-        v.emplace_back("two_children", std::move(t));
+        v.add("two_children", std::move(t));
         T u(a);
         T inner(b);
         inner.push_back(c);
         u.push_back(std::move(inner));
-        v.emplace_back("chain", std::move(u));
+        v.add("chain", std::move(u));
       }
   {
     T t(1);
     t.push_back(2);
     auto dropped = t.pop_back();
     (void)dropped;
-    v.emplace_back("child_removed", std::move(t));
+    v.add("child_removed", std::move(t));
   }
   {
     T t(0);
     t.push_front(1);
     t.push_front(0);
-    v.emplace_back("pushed_front", std::move(t));
+    v.add("pushed_front", std::move(t));
+  }
+  // four values in pre-order 0 1 0 d as: three children / child with two children / chain of three /
+  // two children the first of which has a child / the second of which has a child; d differs at depth 3
+  for (int d : {0, 1})
+  {
+    {
+      T t(0);
+      t.push_back(1);
+      t.push_back(0);
+      t.push_back(d);
+      v.add("three_children", std::move(t));
+    }
+    {
+      T t(0);
+      T k(1);
+      k.push_back(0);
+      k.push_back(d);
+      t.push_back(std::move(k));
+      v.add("child_with_two", std::move(t));
+    }
+    {
+      T t(0);
+      T k(1);
+      T l(0);
+      l.push_back(d);
+      k.push_back(std::move(l));
+      t.push_back(std::move(k));
+      v.add("chain_of_three", std::move(t));
+    }
+    {
+      T t(0);
+      T k(1);
+      k.push_back(0);
+      t.push_back(std::move(k));
+      t.push_back(d);
+      v.add("first_child_has_child", std::move(t));
+    }
+    {
+      T t(0);
+      t.push_back(1);
+      T k(0);
+      k.push_back(d);
+      t.push_back(std::move(k));
+      v.add("second_child_has_child", std::move(t));
+    }
+  }
+  {
+    T t(0);
+    T k(1);
+    T l(0);
+    l.push_back(1);
+    k.push_back(std::move(l));
+    t.push_back(std::move(k));
+    T const copy(t);
+    v.add("copy_of_chain_of_three", copy);
+    T assigned(2);
+    assigned = t;
+    v.add("copy_assigned_chain_of_three", std::move(assigned));
+    t.front().get_unsafe().get().front().get_unsafe().get().front().get_unsafe().get().value(0);
+    v.add("deep_value_rewritten", std::move(t));
   }
   struct enc
   {
     static void go(T const &t, comp_t &c)
     {
       c.push_back(t.value());
-      c.push_back(static_cast<long long>(t.children().size()));
+      c.push_back(c17::cl(t.children().size()));
       for (T const &k : t.children()) go(k, c);
     }
   };
-  emit_order("tree<int>", v,
-             [](T const &t) {
-               comp_t c;
-               enc::go(t, c);
-               return c;
-             },
-             no_hash{});
+  v.emit(
+      [](T const &t) {
+        comp_t c;
+        enc::go(t, c);
+        return c;
+      },
+      no_hash{});
 }
+}
+C17_PART(tree)
+{
+  if (c17::take()) tree_int();
+}
+#endif
 
+// ================================================================ raw_vector
+#ifdef C17_SECTION_raw_vector
+#include <fcppt/container/raw_vector/comparison.hpp>
+#include <fcppt/container/raw_vector/object.hpp>
+#include <fcppt/range/hash.hpp>
+namespace
+{
 void raw_vector_int()
 {
   using T = fcppt::container::raw_vector::object<int>;
-  values<T> v;
-  v.emplace_back("default", T());
-  for (int a : dom) v.emplace_back("ilist", T{a});
+  c17::order<T> v("raw_vector", "raw_vector<int>");
+  v.add("default", T());
+  for (int a : dom) v.add("ilist", T{a});
   for (int a : dom)
-    for (int b : dom) v.emplace_back("ilist", T{a, b});
+    for (int b : dom) v.add("ilist", T{a, b});
   for (int a : dom)
     for (int b : dom)
-      for (int c : dom) v.emplace_back("ilist", T{a, b, c});
+      for (int c : dom) v.add("ilist", T{a, b, c});
+  // equal contents, different capacity / history
   {
     T t{1, 2};
     t.reserve(16);
-    v.emplace_back("reserved", std::move(t));
+    v.add("reserved", std::move(t));
   }
   {
     T t{1, 2, 0};
     t.pop_back();
-    v.emplace_back("popped", std::move(t));
+    v.add("popped", std::move(t));
   }
   {
     T t;
     t.push_back(1);
     t.push_back(2);
-    v.emplace_back("pushed", std::move(t));
+    v.add("pushed", std::move(t));
   }
   {
     T t{0, 1, 2};
     t.clear();
-    v.emplace_back("cleared", std::move(t));
+    v.add("cleared", std::move(t));
   }
   {
     T t{2, 2};
     t.erase(t.begin());
-    v.emplace_back("erased", std::move(t));
+    v.add("erased", std::move(t));
   }
   {
     T t(2U, 1);
-    v.emplace_back("filled", std::move(t));
+    v.add("filled", std::move(t));
   }
-  emit_order("raw_vector<int>", v, [](T const &t) { return comp_t(t.begin(), t.end()); },
-             [](T const &t) { return fcppt::range::hash<T>{}(t); });
+  {
+    T t{1, 2};
+    t.reserve(64);
+    t.shrink_to_fit();
+    v.add("shrunk", std::move(t));
+  }
+  {
+    T t{1};
+    t.resize(3U, 2);
+    v.add("resized_up", std::move(t));
+  }
+  {
+    T t{1, 2, 2, 0, 1};
+    t.resize(3U, 0);
+    v.add("resized_down", std::move(t));
+  }
+  {
+    T t{1, 2};
+    t.insert(t.begin() + 1, 1U, 2);
+    v.add("inserted", std::move(t));
+  }
+  {
+    T a{0, 1, 2};
+    T b{2};
+    b = std::move(a);
+    v.add("move_assigned", std::move(b));
+  }
+  {
+    T t;
+    t.reserve(8);
+    v.add("empty_with_capacity", std::move(t));
+  }
+  v.emit([](T const &t) { return comp_t(t.begin(), t.end()); }, [](T const &t) { return fcppt::range::hash<T>{}(t); });
+}
+}
+C17_PART(raw_vector)
+{
+  if (c17::take()) raw_vector_int();
+}
+#endif
+
+// ================================================================ reference
+#ifdef C17_SECTION_reference
+#include <fcppt/make_cref.hpp>
+#include <fcppt/make_ref.hpp>
+#include <fcppt/reference.hpp>
+#include <fcppt/reference_comparison.hpp>
+#include <fcppt/reference_hash.hpp>
+#include <fcppt/reference_std_hash.hpp>
+#include <fcppt/optional/comparison.hpp>
+#include <fcppt/optional/object.hpp>
+#include <fcppt/optional/reference.hpp>
+#include <functional>
+namespace
+{
+// four objects, three of them holding the same value: the observable component of a reference is
+// WHICH object it refers to (reference_comparison.hpp: "equal if they refer to the same object");
+// the objects are elements of one array, so their order is that of the indices
+int pool[4] = {0, 0, 1, 0};
+long long which(int const *const p) { return c17::cl(p - pool); }
+
+template <typename T>
+void fill_refs(c17::order<T> &v)
+{
+  for (int &o : pool) v.add("make_ref", T(o));
+  v.add("second_ref_to_first", T(pool[0]));
+  {
+    T r(pool[2]);
+    r = T(pool[1]);
+    v.add("reseated", r);
+  }
+  {
+    T r(pool[3]);
+    T const c(r);
+    v.add("copy_of_ref_to_last", c);
+  }
+}
+void reference_int()
+{
+  using T = fcppt::reference<int>;
+  c17::order<T> v("reference", "reference<int>");
+  fill_refs(v);
+  v.add("make_ref_fn", fcppt::make_ref(pool[2]));
+  v.emit([](T const &r) { return comp_t{which(&r.get())}; }, [](T const &r) { return fcppt::reference_hash<T>{}(r); });
+}
+void reference_int_std()
+{
+  using T = fcppt::reference<int>;
+  c17::order<T> v("reference", "reference<int>/std::hash");
+  fill_refs(v);
+  v.emit([](T const &r) { return comp_t{which(&r.get())}; }, [](T const &r) { return std::hash<T>{}(r); });
+}
+void reference_const_int()
+{
+  using T = fcppt::reference<int const>;
+  c17::order<T> v("reference", "reference<int const>");
+  fill_refs(v);
+  v.add("make_cref_fn", fcppt::make_cref(pool[1]));
+  v.emit([](T const &r) { return comp_t{which(&r.get())}; }, [](T const &r) { return fcppt::reference_hash<T>{}(r); });
+}
+// optionals of references: equal exactly if both are empty or both refer to the same object
+void optional_reference()
+{
+  using T = fcppt::optional::reference<int>;
+  c17::order<T> v("optional", "optional<reference<int>>");
+  v.add("default", T());
+  for (int &o : pool) v.add("ref", T(fcppt::make_ref(o)));
+  v.add("second_ref_to_first", T(fcppt::make_ref(pool[0])));
+  {
+    T r(fcppt::make_ref(pool[2]));
+    r = T();
+    v.add("reset", r);
+  }
+  {
+    T r;
+    r = T(fcppt::make_ref(pool[3]));
+    v.add("assigned_ref_to_last", r);
+  }
+  v.emit([](T const &o) { return o.has_value() ? comp_t{1, which(&o.get_unsafe().get())} : comp_t{0}; }, no_hash{});
+}
+}
+C17_PART(reference)
+{
+  if (c17::take()) reference_int();
+  if (c17::take()) reference_int_std();
+  if (c17::take()) reference_const_int();
+  if (c17::take()) optional_reference();
+}
+#endif
+
+// ================================================================ shared_ptr
+#ifdef C17_SECTION_shared_ptr
+#include <fcppt/const_pointer_cast.hpp>
+#include <fcppt/dynamic_pointer_cast.hpp>
+#include <fcppt/make_shared_ptr.hpp>
+#include <fcppt/make_unique_ptr.hpp>
+#include <fcppt/shared_ptr.hpp>
+#include <fcppt/shared_ptr_hash_decl.hpp>
+#include <fcppt/shared_ptr_hash_impl.hpp>
+#include <fcppt/shared_ptr_std_hash.hpp>
+#include <fcppt/static_pointer_cast.hpp>
+#include <fcppt/unique_ptr.hpp>
+#include <fcppt/weak_ptr.hpp>
+#include <fcppt/optional/object.hpp>
+#include <functional>
+namespace
+{
+// The observable component of a shared_ptr is WHICH object its stored pointer refers to
+// (shared_ptr_decl.hpp: "Compares ... for equality, comparing their pointers", "less ... comparing
+// their pointers with std::less"; shared_ptr_hash: hash of get_pointer()).  The OWNER is not part of
+// it: pointers made with the aliasing constructor shared_ptr(owner, pointer) share an owner and differ,
+// or have different owners and are equal.  Addresses are numbered in the order they are first seen
+// (0 = the null pointer).
+struct addresses
+{
+  std::vector<void const *> seen;
+  long long id(void const *const p)
+  {
+    if (p == nullptr) return 0;
+    for (std::size_t i = 0; i < seen.size(); ++i)
+      if (seen[i] == p) return static_cast<long long>(i) + 1;
+    seen.push_back(p);
+    return static_cast<long long>(seen.size());
+  }
+};
+int alias_pool[2] = {0, 0};
+
+template <typename Hash>
+void shared_ptr_int(char const *const type, Hash const &hash)
+{
+  using T = fcppt::shared_ptr<int>;
+  c17::order<T> v("shared_ptr", type);
+  T const p0(fcppt::make_shared_ptr<int>(0));
+  T const p1(fcppt::make_shared_ptr<int>(0));
+  T const p2(fcppt::make_shared_ptr<int>(1));
+  v.add("make_shared_ptr", p0);
+  v.add("make_shared_ptr", p1);
+  v.add("make_shared_ptr", p2);
+  v.add("copy_of_first", T(p0));
+  {
+    T q(p2);
+    q = p1;
+    v.add("assigned_second", q);
+  }
+  // aliasing constructor: same owner / different stored pointers
+  T const a00(p0, &alias_pool[0]);
+  T const a01(p0, &alias_pool[1]);
+  v.add("alias_owner0_pool0", a00);
+  v.add("alias_owner0_pool1", a01);
+  // different owners / same stored pointer
+  v.add("alias_owner1_pool0", T(p1, &alias_pool[0]));
+  v.add("alias_owner2_pool1", T(p2, &alias_pool[1]));
+  // the stored pointer is another shared_ptr's object / the owner's own object
+  v.add("alias_owner0_object1", T(p0, p1.get_pointer()));
+  v.add("alias_owner2_object2", T(p2, p2.get_pointer()));
+  // null stored pointer with an owner (two different owners), a null pointer that owns nothing
+  v.add("alias_owner2_null", T(p2, nullptr));
+  v.add("alias_owner0_null", T(p0, nullptr));
+  v.add("null_pointer_ctor", T(static_cast<int *>(nullptr)));
+  {
+    // empty: moved-from (owns nothing, stores nothing), and the pointer it was moved into
+    T a(p0);
+    T b(std::move(a));
+    v.add("moved_from", a); // NOLINT(bugprone-use-after-move)
+    v.add("moved_into", b);
+  }
+  {
+    T a(p1);
+    T b(a01);
+    a.swap(b);
+    v.add("swapped_now_alias", a);
+    v.add("swapped_now_second", b);
+  }
+  // weak_ptr-derived
+  {
+    fcppt::weak_ptr<int> const w(p1);
+    auto const l(w.lock());
+    if (l.has_value()) v.add("weak_lock_second", l.get_unsafe());
+    fcppt::weak_ptr<int> const wa(a01);
+    auto const la(wa.lock());
+    if (la.has_value()) v.add("weak_lock_alias_owner0_pool1", la.get_unsafe());
+    fcppt::weak_ptr<int> const copy(wa);
+    auto const lc(copy.lock());
+    if (lc.has_value()) v.add("weak_copy_lock_alias", lc.get_unsafe());
+  }
+  // cast-derived
+  {
+    fcppt::shared_ptr<int const> const c(p2);
+    v.add("const_cast_of_third", fcppt::const_pointer_cast<int>(c));
+    fcppt::shared_ptr<int const> const ca(a00);
+    v.add("const_cast_of_alias_owner0_pool0", fcppt::const_pointer_cast<int>(ca));
+    v.add("static_cast_of_first", fcppt::static_pointer_cast<int>(p0));
+  }
+  // a unique_ptr's object
+  v.add("from_unique_ptr", T(fcppt::make_unique_ptr<int>(0)));
+  addresses table;
+  v.emit([&table](T const &p) { return comp_t{table.id(p.get_pointer())}; }, hash);
 }
 
-void references()
+// shared_ptr comparison is a template over two pointee types ("Type1", "Type2"): pointers to a base
+// and to a class derived from it (with a non-zero base offset), converted, cast down statically and
+// dynamically, aliased
+struct pad
 {
-  // three objects, two of them holding the same value: the observable component of a reference is
-  // WHICH object it refers to (reference_comparison.hpp: "equal if they refer to the same object")
-  static int pool[3] = {0, 0, 1};
-  auto const which = [](int const *p) { return static_cast<long long>(p - pool); };
+  int p = 7;
+  virtual ~pad() = default;
+};
+struct base
+{
+  int id;
+  explicit base(int const i) : id(i) {}
+  base(base const &) = delete;
+  base &operator=(base const &) = delete;
+  virtual ~base() = default;
+};
+struct derived : pad, base
+{
+  explicit derived(int const i) : base(i) {}
+};
+void shared_ptr_hierarchy()
+{
+  using B = fcppt::shared_ptr<base>;
+  using D = fcppt::shared_ptr<derived>;
+  using T = c17::het<B, D>;
+  // (before fcppt 0894e76 operator< forwarded to std::shared_ptr's, which libstdc++ 12 in C++20 mode
+  // implements with compare_three_way on void pointers: a shared_ptr<derived> and the shared_ptr<base> to
+  // the same object compared equal AND ordered - signature ...:lt-incompatible-with-eq of this type)
+  c17::order<T> v("shared_ptr", "shared_ptr<base>|shared_ptr<derived>");
+  D const d0(fcppt::make_shared_ptr<derived>(0));
+  D const d1(fcppt::make_shared_ptr<derived>(0));
+  B const b0(d0);
+  B const b1(d1);
+  B const b2(fcppt::make_shared_ptr<base>(0));
+  v.add("derived", T{d0});
+  v.add("derived", T{d1});
+  v.add("to_base", T{b0});
+  v.add("to_base", T{b1});
+  v.add("base_object", T{b2});
+  v.add("static_cast_down", T{fcppt::static_pointer_cast<derived>(b0)});
   {
-    using T = fcppt::reference<int>;
-    values<T> v;
-    for (int &o : pool) v.emplace_back("make_ref", fcppt::make_ref(o));
-    v.emplace_back("second_ref_to_first", T(pool[0]));
-    {
-      T r(pool[2]);
-      r = T(pool[1]);
-      v.emplace_back("reseated", r);
-    }
-    emit_order("reference<int>", v, [&](T const &r) { return comp_t{which(&r.get())}; },
-               [](T const &r) { return fcppt::reference_hash<T>{}(r); });
-    emit_order("reference<int>/std::hash", v, [&](T const &r) { return comp_t{which(&r.get())}; },
-               [](T const &r) { return std::hash<T>{}(r); });
+    auto const dc(fcppt::dynamic_pointer_cast<derived>(b1));
+    if (dc.has_value()) v.add("dynamic_cast_down", T{dc.get_unsafe()});
   }
+  v.add("alias_owner0_base_of_1", T{B(d0, static_cast<base *>(d1.get_pointer()))});
+  v.add("alias_owner1_derived_0", T{D(d1, d0.get_pointer())});
+  v.add("alias_owner_base_null", T{B(b2, nullptr)});
+  v.add("derived_null", T{D(d0, nullptr)});
   {
-    using T = fcppt::shared_ptr<int>;
-    values<T> v;
-    std::vector<int const *> seen;
-    T const p0(fcppt::make_shared_ptr<int>(0));
-    T const p1(fcppt::make_shared_ptr<int>(0));
-    T const p2(fcppt::make_shared_ptr<int>(1));
-    v.emplace_back("make_shared_ptr", p0);
-    v.emplace_back("make_shared_ptr", p1);
-    v.emplace_back("make_shared_ptr", p2);
-    v.emplace_back("copy_of_first", T(p0));
-    {
-      T q(p2);
-      q = p1;
-      v.emplace_back("assigned_second", q);
-    }
-    auto const idx = [&](T const &p) {
-      int const *const a = p.get_pointer();
-      if (a == p0.get_pointer()) return comp_t{0};
-      if (a == p1.get_pointer()) return comp_t{1};
-      if (a == p2.get_pointer()) return comp_t{2};
-      return comp_t{-1};
-    };
-    emit_order("shared_ptr<int>", v, idx, [](T const &p) { return fcppt::shared_ptr_hash<T>{}(p); });
-    emit_order("shared_ptr<int>/std::hash", v, idx, [](T const &p) { return std::hash<T>{}(p); });
+    fcppt::weak_ptr<base> const w(b0);
+    auto const l(w.lock());
+    if (l.has_value()) v.add("weak_lock_base_0", T{l.get_unsafe()});
   }
+  addresses table;
+  v.emit(
+      [&table](T const &t) {
+        return std::visit([&table](auto const &p) { return comp_t{table.id(static_cast<base const *>(p.get_pointer()))}; }, t.v);
+      },
+      no_hash{});
+}
+void shared_ptr_derived()
+{
+  using T = fcppt::shared_ptr<derived>;
+  c17::order<T> v("shared_ptr", "shared_ptr<derived>");
+  T const d0(fcppt::make_shared_ptr<derived>(0));
+  T const d1(fcppt::make_shared_ptr<derived>(0));
+  fcppt::shared_ptr<base> const b0(d0);
+  v.add("make_shared_ptr", d0);
+  v.add("make_shared_ptr", d1);
+  v.add("copy_of_first", T(d0));
+  v.add("static_cast_down", fcppt::static_pointer_cast<derived>(b0));
   {
-    using T = fcppt::recursive<int>;
-    values<T> v;
-    for (int a : dom) v.emplace_back("ctor", T(a));
-    v.emplace_back("make_recursive", fcppt::make_recursive(1));
-    {
-      T r(0);
-      r = fcppt::make_recursive(2);
-      v.emplace_back("assigned", r);
-    }
-    {
-      T r(0);
-      r.get() = 1;
-      v.emplace_back("written_through_get", r);
-    }
-    emit_order("recursive<int>", v, [](T const &r) { return comp_t{r.get()}; }, no_hash{});
+    auto const dc(fcppt::dynamic_pointer_cast<derived>(b0));
+    if (dc.has_value()) v.add("dynamic_cast_down", dc.get_unsafe());
   }
+  v.add("alias_owner1_object0", T(d1, d0.get_pointer()));
+  v.add("alias_owner0_null", T(d0, nullptr));
+  addresses table;
+  v.emit([&table](T const &p) { return comp_t{table.id(p.get_pointer())}; }, [](T const &p) { return fcppt::shared_ptr_hash<T>{}(p); });
 }
 }
+C17_PART(shared_ptr)
+{
+  using T = fcppt::shared_ptr<int>;
+  if (c17::take()) shared_ptr_int("shared_ptr<int>", [](T const &p) { return fcppt::shared_ptr_hash<T>{}(p); });
+  if (c17::take()) shared_ptr_int("shared_ptr<int>/std::hash", [](T const &p) { return std::hash<T>{}(p); });
+  if (c17::take()) shared_ptr_hierarchy();
+  if (c17::take()) shared_ptr_derived();
+}
+#endif
 
-void c17_order_records()
+// ================================================================ recursive
+#ifdef C17_SECTION_recursive
+#include <fcppt/make_recursive.hpp>
+#include <fcppt/recursive.hpp>
+#include <fcppt/recursive_comparison.hpp>
+namespace
 {
-  optional_int();
-  optional_optional();
-  either_int_long();
-  variant_int_long();
-  tuple_int_int();
-  array_int_2();
-  record_int_int();
-  strong_typedef_int();
-  math_types();
-  bitfield_e3();
-  enum_array_e3();
-  grid_int_2();
-  tree_int();
-  raw_vector_int();
-  references();
+void recursive_int()
+{
+  using T = fcppt::recursive<int>;
+  c17::order<T> v("recursive", "recursive<int>");
+  for (int a : dom) v.add("ctor", T(a));
+  v.add("make_recursive", fcppt::make_recursive(1));
+  {
+    T r(0);
+    r = fcppt::make_recursive(2);
+    v.add("assigned", r);
+  }
+  {
+    T r(0);
+    r.get() = 1;
+    v.add("written_through_get", r);
+  }
+  {
+    // distinct objects holding equal values: a copy (recursive copies the object it holds)
+    T r(2);
+    T const c(r);
+    r.get() = 0;
+    v.add("copy_taken_before_write", c);
+    v.add("written_after_copy", r);
+  }
+  {
+    T r(1);
+    T m(std::move(r));
+    v.add("moved_into", m);
+  }
+  v.emit([](T const &r) { return comp_t{r.get()}; }, no_hash{});
 }
+}
+C17_PART(recursive)
+{
+  if (c17::take()) recursive_int();
+}
+#endif
